@@ -123,7 +123,7 @@ func (q *Queue[T]) doAdd(item T) error {
 	}
 
 	// for the iterator, signal for any updates
-	q.nupdates.Signal()
+	q.nupdates.Broadcast()
 
 	return nil
 }
